@@ -14,6 +14,8 @@ use std::task::{Context, Poll};
 use std::time::Duration;
 
 const UNIT_MS: u64 = 10;
+/// Grid value for `Duration::MAX`.
+pub const HUGE: u64 = u64::MAX;
 const HORIZON: u64 = 1000;
 
 #[derive(Clone, Copy, Debug, PartialEq, Eq, Hash, PartialOrd, Ord)]
@@ -135,7 +137,8 @@ pub async fn run_config(cfg: &Config) -> Obs {
         dropped_at: vec![None; n],
         ..Default::default()
     }));
-    let d = |u: u64| Duration::from_millis(u * UNIT_MS);
+    // HUGE stands for a duration beyond any horizon ("effectively none", as callers write it)
+    let d = |u: u64| if u == HUGE { Duration::MAX } else { Duration::from_millis(u * UNIT_MS) };
     let mut set: EyeballSet<Attempt, usize, usize> =
         EyeballSet::new(cfg.delay.map(d), cfg.timeout.map(d), cfg.concurrency);
     for (idx, (outcome, latency)) in cfg.attempts.iter().enumerate() {
@@ -183,7 +186,17 @@ pub async fn run_config(cfg: &Config) -> Obs {
 }
 
 /// C10 predicates P1..P7. Returns (predicate name, message) for the first failure.
+/// Within the harness horizon a deadline of `Duration::MAX` is no deadline.
+fn normalised(cfg: &Config) -> Config {
+    let mut c = cfg.clone();
+    if c.timeout == Some(HUGE) {
+        c.timeout = None;
+    }
+    c
+}
+
 pub fn check_c10(cfg: &Config, o: &Obs) -> Option<(&'static str, String)> {
+    let cfg = &normalised(cfg);
     let n = cfg.attempts.len();
     let t = cfg.timeout;
     let f = |i: usize| -> Option<u64> {
@@ -265,6 +278,7 @@ pub fn check_c10(cfg: &Config, o: &Obs) -> Option<(&'static str, String)> {
 
 /// C11 predicates Q1..Q5.
 pub fn check_c11(cfg: &Config, o: &Obs) -> Option<(&'static str, String)> {
+    let cfg = &normalised(cfg);
     let n = cfg.attempts.len();
     if let Res::Panic(m) = &o.result {
         return Some(("Q0", format!("panic: {m}")));
@@ -345,7 +359,7 @@ pub fn check_c11(cfg: &Config, o: &Obs) -> Option<(&'static str, String)> {
     if let Some(d) = cfg.delay {
         for j in free.max(1)..n {
             let Some(prev) = o.start[j - 1] else { break };
-            let due = prev + d;
+            let due = prev.saturating_add(d);
             match o.start[j] {
                 Some(x) if x <= due => {}
                 Some(x) => return Some(("Q4", format!("attempt {j} started at t={x}, later than the stagger tick at {due}"))),
@@ -387,8 +401,8 @@ impl Grid {
         Grid {
             max_n: if tier_thorough { 5 } else { 4 },
             lats: if tier_thorough { vec![0, 1, 2, 3, 5, 8] } else { vec![0, 1, 2, 3, 5] },
-            delays: vec![None, Some(0), Some(2)],
-            timeouts: if tier_thorough { vec![None, Some(0), Some(2), Some(4), Some(7)] } else { vec![None, Some(0), Some(4)] },
+            delays: vec![None, Some(0), Some(2), Some(HUGE)],
+            timeouts: if tier_thorough { vec![None, Some(0), Some(2), Some(4), Some(7), Some(HUGE)] } else { vec![None, Some(0), Some(4), Some(HUGE)] },
         }
     }
     /// per-attempt alphabet: Ok x lats, Err x lats, Never (latency irrelevant)
